@@ -6,6 +6,18 @@ FIX_COMMITS = subprocess.run(["git","-C","/repo","log","--format=%h %s","5dec6d4
 
 # id -> (technique, level text, level note, design ref)
 CHECKS = {
+ "C01": ("cursor-protocol shape check of all 14 Read encoders + symbolic wire-layout extraction compared with a protocol layout table + prefix arithmetic + decoder/encoder offset agreement (go/ssa)",
+         "Structural necessary conditions decided per encoder: R1-R5 of the cursor protocol (one copy(p, buf[cursor:]), cursor += n, EOF guard, (n, nil) returns, buffer independent of the cursor) give, by induction on the cursor, the same bytes and termination for EVERY sequence of read-buffer sizes >= 1; the extracted segment list of each encoder (widths, order, constants, which slot measures which field) equals spec/layouts.json written from the protocol document; size helpers are arithmetic consequences of those layouts; stored length prefixes are only written from the length of the data stored next to them; decoder byte ranges equal encoder offsets.",
+         "Trusted: spec/layouts.json as the Hotline format, slices.Concat/append semantics. Not decided: decode(encode(x)) = x as values, over-long strings outside the prefixes' range, encoders without a Read method other than those listed (EncodeFilePath, NewTime, BinaryMarshal are not layout-checked).",
+         "4/C01"),
+ "C02": ("type-resolved who-feeds-whom check on positional frame decoders, bare-Read detection over the server-side call tree, guard dominance in split functions (go/ssa + call graph)",
+         "Structural necessary conditions: no construct in the server's connection handling can observe a segment boundary - positional decoders are only fed whole buffers, the 12/16-byte frames are accumulated with io.ReadFull into exactly-sized buffers, no direct Read of a stream exists in the functions reachable from the two connection entry points (every consumption site is listed in the evidence), and the transaction split function only emits a token whose end was compared with len(data) on a dominating edge.",
+         "Trusted: contracts of io.ReadFull / binary.Read / io.CopyN / bufio.Scanner. Not decided: equality of replies/state across segmentations as such; the 64 KiB scanner token limit; the client library (GetListing/serverScanner is reported out of scope).",
+         "4/C02"),
+ "C20": ("who-may-write rule on the live paths of the four durable stores with symbolic path classification, success-edge dominance of the rename, must-pass-through before success returns (go/ssa)",
+         "Structural necessary conditions for crash atomicity: every create/truncate/write/rename/remove whose path derives from a store's live-path field is classified (live / temp next to it / other); the live file is only replaced by os.Rename of a temp file written successfully on the dominating edge (exceptions: unlink on account delete, live-to-live rename on account rename, each one atomic system call); every store mutator reaches a success return only after that rename; the temp suffix is not matched by the account loader's glob. With rename(2) atomic within a directory this leaves old-or-new content at every crash point of each single update step.",
+         "Trusted: rename(2) atomicity, os.WriteFile semantics. Not decided: the two-step account rename (rename then rewrite), loader tolerance of every intermediate state, power-loss durability (no fsync is demanded: the property is about process kill).",
+         "4/C20"),
  "C04": ("edge-cut reachability / dominance over the login sequence's CFG plus shape rules on Authenticate and handshake.Valid (go/ssa)",
          "Structural necessary conditions decided on every CFG path of the login sequence: with the Authenticate-true edges deleted no dispatch, outbox send, registration, store mutator or notification (also as deferred call) is reachable and the only connection writes are handshake reply, ban notice and one error reply; Authenticate can only yield true through the bcrypt comparison of the looked-up account's hash with the supplied password; the login/password arguments and the bound account come from the login transaction (guest only for the empty login); the handler table is only dispatched from the post-login loop.",
          "Trusted: bcrypt, go/ssa. Not decided: byte-exact content of the error reply, timing of the ban notice, anything about accounts/files being 'untouched' beyond absence of reachable mutator calls.",
